@@ -171,17 +171,20 @@ PROPS["C18"] = dict(
 
 PROPS["C06"] = dict(
     inject=[("src/bigint/convert.rs", "c06/parse.rs"), ("src/biguint/convert.rs", "c06/radix.rs"), ("src/bigint.rs", "c06/fmt.rs"), ("src/biguint/convert.rs", "c15/utf8.rs")],
-    kani=[dict(filter_q=["c06_q_", "c15_q_ascii_mapping"], filter_t=["c06_q_", "c06_t_", "c15_q_ascii_mapping", "c15_t_ascii"], jobs=14, timeout_q=240, timeout_t=900)],
-    functions=["Display/Binary/Octal/LowerHex/UpperHex for BigInt (arguments handed to Formatter::pad_integral)", "from_radix_be/from_radix_le (validation, empty input, value)", "from_radix_digits_be (single chunk)", "from_bitwise_digits_le / from_inexact_bitwise_digits_le",
+    kani=[dict(filter_q=["c06_q_", "c15_q_ascii_mapping"], filter_t=["c06_q_", "c06_t_", "c15_q_ascii_mapping", "c15_t_ascii"], jobs=14, timeout_q=240, timeout_t=1800)],
+    functions=["BigUint::from_str_radix TEXT LAYER (sign stripping, underscore rules, digit mapping, error kind, choice of back end; back ends under recorders)", "Display/Binary/Octal/LowerHex/UpperHex for BigInt (arguments handed to Formatter::pad_integral)", "from_radix_be/from_radix_le (validation, empty input, value)", "from_radix_digits_be (single chunk)", "from_bitwise_digits_le / from_inexact_bitwise_digits_le",
                "to_radix_le -> to_bitwise_digits_le / to_inexact_bitwise_digits_le", "get_radix_base / get_half_radix_base tables (all 247 radices)", "radix range assertions of from_str_radix, from_radix_*, to_str_radix",
                "to_str_radix (BigUint/BigInt wrappers: reversal, '-' sign) and to_str_radix_reversed (digit -> ASCII mapping for all radices) with the digit production under a recorder/contract"],
     bounds_quick="digit-vector input: every digit string of length 0..3 for radices {10,16,256,3,255,8} incl. digits >= radix (None) and both byte orders; single-chunk Horner for 3/5/2 digits of radix 10/36/255; "
-                 "power-of-two radices 2,8,16,32,256 (more thorough): output digits = bit groups of every 1..2-digit value, input of 9..22 digits; the compiled radix tables for ALL radices 3..255; out-of-range radices panic",
-    outside="TEXT PARSING AS LANGUAGE MEMBERSHIP (from_str_radix / FromStr / parse_bytes on symbolic strings) is NOT decided: even one symbolic byte of a 1-character string exceeds 240 s (three thorough-tier attempts are kept and "
-            "reported undecided); to_str_radix / Display text for non-power-of-two radices (64-bit divisions by the radix: thorough-tier attempts on <= 16-bit values under C15); the chunked Horner path with more than one chunk and the "
+                 "power-of-two radices 2,8,16,32,64,256 (more thorough): output digits = bit groups of every 1..2-digit value, input of 9..22 digits and, across a word boundary on which a digit ENDS, 33 digits of radix 64 and 65 digits of radix 8; "
+                 "the compiled radix tables for ALL radices 3..255; out-of-range radices panic; "
+                 "text layer of BigUint::from_str_radix: EVERY ASCII string of length 0..3 for radices 10 (lengths 0..3), 16, 8, 36, 2 (length 3): accepted iff [+]? D (D|_)*, Empty vs InvalidDigit, and the digit vector / back end / argument handed on",
+    outside="END-TO-END text parsing (text layer AND value in one query) is not decided: with the real back ends even one symbolic byte exceeds 240 s (thorough-tier attempts are kept and reported undecided); the value comes from the digit-vector queries, "
+            "the composition is by the recorded interface; BigInt::from_str_radix's '-' handling and FromStr / parse_bytes wrappers only in those thorough-tier attempts; strings longer than 3 (4: thorough); non-ASCII input; "
+            "multi-chunk Horner input (>= 2 chunk-base multiplications): thorough-tier only, with the head digit and first chunk pinned (1447 s); to_str_radix / Display text for non-power-of-two radices (64-bit divisions by the radix: thorough-tier attempts on <= 16-bit values under C15); the chunked Horner path with more than one chunk and the "
             ">= 64-digit big-base output path; the formatter flag handling (core's pad_integral, trusted)",
     trusted=["stub: Vec::with_capacity -> empty growing vector; Vec::shrink_to_fit -> no-op"],
-    level_text="bounded model checking of the digit-vector conversions and the radix tables; the text-parsing clause of C06 is outside what the technique reaches here and is stated as such",
+    level_text="bounded model checking of the digit-vector conversions, the radix tables and the text layer of from_str_radix (back ends under recorders); stated bounds",
 )
 
 PROPS["C12"] = dict(
@@ -215,7 +218,8 @@ PROPS["C13"] = dict(
     kani=[dict(filter_q="c13_q_", filter_t=["c13_q_", "c13_t_"], jobs=14, timeout_q=300, timeout_t=1200)],
     functions=["Integer::{is_even,is_odd,inc,dec,is_multiple_of,gcd,lcm,gcd_lcm} for BigInt/BigUint", "Stein gcd (BigUint::gcd)"],
     bounds_quick="parity, inc/dec (through zero and across digit boundaries) on 0..2-digit values of both signs; gcd zero rules; BigInt gcd = gcd of magnitudes (unsigned gcd under contract), non-negative; "
-                 "only-zero-is-a-multiple-of-zero; lcm(0,0), gcd_lcm(0,0); Stein gcd with the real code on pairs of 3..5-bit values is a thorough-tier ATTEMPT only (did not finish in 15 min: each loop round is a by-value shift, a comparison and a subtraction on heap values)",
+                 "only-zero-is-a-multiple-of-zero; zero is a multiple of every 1..2-digit value; lcm(0,0), gcd_lcm(0,0); Stein gcd with the real code on pairs of 3..5-bit values, and on two-word operands whose low word is zero "
+                 "(common power of two across a digit boundary), is a thorough-tier ATTEMPT only (did not finish in 15 min even on near-concrete operands: each loop round is a by-value shift, a comparison and a subtraction on heap values)",
     outside="gcd/lcm/Bezout VALUES on full-width operands; extended_gcd (num-integer's generic default over BigInt division) and next/prev_multiple_of are not decided here (their division layer is C03's claim)",
     trusted=STUBS_ADDSUB + ["contract stub (BigInt gcd harnesses): <BigUint as Integer>::gcd -> zero rules + arbitrary canonical g <= both operands", "fixed-word shift stand-ins (gcd harness)", "stub: Vec::shrink_to_fit -> no-op"],
 )
@@ -265,8 +269,9 @@ PROPS["C14"] = dict(
                filter_t=["_mp", "checked", "c14_"], jobs=14, timeout_q=240, timeout_t=900),
           dict(filter_q=["c18_q_below_zero", "c18_q_urange_empty"], filter_t=["c18_q_below_zero", "c18_q_urange_empty"], jobs=14, timeout_q=240, timeout_t=900, features="rand", tgt="rand")],
     functions=["documented panic set: division/remainder by zero (all BigInt/BigUint forms), BigUint subtraction below zero, negative shift amount, radix out of range, zero modulus, negative modpow exponent, "
-               "even root of a negative, zeroth root, empty/inverted random range, zero bound", "checked_add/sub/mul/div, CheckedEuclid::*"],
-    bounds_quick="one must-panic query per documented case over arbitrary operands of 0..2 digits (every path must panic: the marker after the call is unreachable) and one never-panics/None-exactly query per checked_* method; "
+               "even root of a negative, zeroth root, empty/inverted random range, zero bound", "checked_add/sub/mul/div, CheckedEuclid::*",
+               "BigInt +=, -=, +, scalar - BigInt with the signed scalar at its MINIMUM (i8..i128, isize): no overflow panic in the negation, exact result"],
+    bounds_quick="one must-panic query per documented case over arbitrary operands of 0..2 digits (every path must panic: the marker after the call is unreachable) and one never-panics/None-exactly query per checked_* method; one query per signed scalar type with the scalar at MIN against every one-digit BigInt of either sign (4 operator forms); "
                  "in addition EVERY harness of every other property runs with Kani's panic, overflow (dev-profile), bounds, unwrap and unwinding checks on, so it doubles as a 'does not fail outside the documented set' query for its operation and shape",
     outside="internal assertions whose truth depends on the algebraic cores (Karatsuba carry asserts, Knuth-D debug_assert!(borrow == a0), Newton iteration termination); operands beyond the stated shapes",
     trusted=STUBS_ADDSUB + ["contract stubs as listed under C03, C05, C12, C13; root models: <BigUint as Roots>::{nth_root,sqrt,cbrt} -> arbitrary canonical value (panics on n = 0)"],
